@@ -37,6 +37,51 @@ def has_rewrite(r):
     return any(e[1] in RW for e in r["prog"])
 
 
+def algorithms_phase(chk, th):
+    """LwRewrites: the rewrite algorithms themselves, transcribed, model checked on every op list in scope and compared with
+    the implementation's output (structure differences are DRIFT, semantic differences violations)"""
+    from .. import tlc, replay_engine
+    from ..tlc import MachineryError
+    mods = {"LwRing", "LwMatrix", "LwCircuitDefs", "LwRewrites"}
+    scopes = [("swaps_ps", dict(NU=4, MaxOps=4, Kinds={"swap", "ps"}, Variant="fixed", SwapLevel=1), ["CompressPreserves", "CompressShorter"], 0.35),
+              ("bs_grp", dict(NU=4, MaxOps=3, Kinds={"bs", "ps", "swap", "grp"}, Variant="fixed", SwapLevel=1), ["ConvertPreserves", "ConvertAdjacent", "CompressPreserves"], 0.25)]
+    if th:
+        scopes += [("cycles5", dict(NU=5, MaxOps=3, Kinds={"swap", "ps", "bs"}, Variant="fixed", SwapLevel=2), ["ConvertPreserves", "ConvertAdjacent", "CompressPreserves", "CompressShorter"], 0.02)]
+    # the defect F22 at model level: considering an already merged swap again is refuted
+    wd = tlc.workdir("C09_rw_f22")
+    tlc.copy_specs(wd, mods)
+    c = dict(NU=4, MaxOps=4, Kinds={"swap", "ps"}, Variant="merged_twice", SwapLevel=1)
+    tlc.write_mc(wd, "MC", "LwRewrites", c)
+    tlc.write_cfg(wd, "MC", c, invariants=["CompressPreserves"])
+    r = tlc.run(wd, "MC", timeout=900)
+    tlc.require_clean_run(r, "C09 LwRewrites merged_twice")
+    chk.add_tlc("LwRewrites variant merged_twice (expected to FAIL CompressPreserves)", r)
+    if not r.violations:
+        raise MachineryError("vacuity: the merged_twice variant of compress_mode_swaps is expected to be refuted")
+    tlc.cleanup("C09_rw_f22")
+    for name, consts, invs, frac in scopes:
+        wd = tlc.workdir("C09_rw_" + name)
+        tlc.copy_specs(wd, mods)
+        tlc.write_mc(wd, "MC", "LwRewrites", consts)
+        tlc.write_cfg(wd, "MC", consts, invariants=invs)
+        res = tlc.run(wd, "MC", dump=True, timeout=3000)
+        tlc.require_clean_run(res, "C09 LwRewrites " + name)
+        for v in res.violations:
+            raise MachineryError("LwRewrites %s violates %s: the transcribed algorithm does not preserve the matrix" % (name, v["name"]))
+        chk.add_tlc("LwRewrites " + name, res, "invariants %s" % invs)
+        n = 0
+        for rr in replay_engine.replay_dump(res.dump, "harness.adapters.rewrites", "worker", {"nu": consts["NU"]}, frac=1.0 if th and name != "cycles5" else frac, seed=chk.seed):
+            n += 1
+            chk.count(key="rw" + repr(rr["ops"]), nontrivial=len(rr["ops"]) >= 2)
+            if rr["drift"]:
+                chk.drift.append(rr["drift"])
+            for clause, detail in rr["findings"]:
+                chk.violation(clause, detail, script={"module": "LwRewrites", "nu": consts["NU"], "ops": rr["ops"]}, sig={"clause": clause})
+        chk.traces_validated += n
+        chk.add_phase("replay LwRewrites " + name, op_lists=n)
+        tlc.cleanup("C09_rw_" + name)
+
+
 def run(tier):
     chk = Check(PID, tier)
     chk.rule = ("cases = construction programs containing unpack_groups / compress_mode_swaps / remove_non_adjacent_bs / copy, followed by "
@@ -59,6 +104,7 @@ def run(tier):
             cc.model_check(chk, PID, name, small, ["InputModesInv"], PROPS, 3000, dump=False)
             cc.tlc.cleanup("%s_%s" % (PID, name))
         cc.sim_phase(chk, PID, name, c, MINE, n * (6 if th else 1), 8, ctx, nontrivial_fn=has_rewrite)
+    algorithms_phase(chk, th)
     cc.script_phase(chk, PID, "findings", cc.load_corpus(PID), MINE)
     if th:
         cc.repo_tests_phase(chk, PID, MINE, ["tests/sdk/circuit_test.py", "tests/qubit"])
